@@ -18,6 +18,7 @@ mod ops_field;
 mod ops_hash;
 mod ops_misc;
 mod wl;
+mod wl_enc;
 
 use serde_json::{json, Value};
 use std::fs::File;
